@@ -89,6 +89,8 @@ theorem TL.mkFun {s s' : St} {v : Bool} {spec : FSpec} {fn : Fun} (h : TL s)
     · rename_i hd hg
       split at hm
       · cases hm
+      split at hm
+      · cases hm
       · obtain ⟨rfl, rfl⟩ := fin hm
         have hmono : ∀ o, LiveObj s.T s.G s.ownedT o →
             LiveObj s.T (aset s.G g { hd with everFwd := true }) s.ownedT o :=
@@ -121,6 +123,16 @@ theorem TL.mkFun {s s' : St} {v : Bool} {spec : FSpec} {fn : Fun} (h : TL s)
     · cases hm
     · obtain ⟨rfl, rfl⟩ := fin hm
       exact ⟨h, fun o ho => by cases ho⟩
+  | ownG fid g =>
+    simp only [Model.mkFun] at hm
+    split at hm
+    · cases hm
+    · split at hm
+      · cases hm
+      split at hm
+      · cases hm
+      · obtain ⟨rfl, rfl⟩ := fin hm
+        exact ⟨h, fun o ho => by cases ho⟩
   | bad => simp only [Model.mkFun] at hm; cases hm
 
 theorem TL.ensureImpl {s s1 : St} {g i : Nat} (h : TL s) (he : ensureImpl s g = some (s1, i)) : TL s1 := by
